@@ -139,3 +139,26 @@ CHECKS["C16"]["text"] += " The account history of the run has exactly one row pe
 CHECKS["C17"]["text"] += " A 'newrow' operation moves token weights, a USDG amount and the USDG total between operations (targets change from bar to bar)."
 CHECKS["C19"]["text"] += " Every strategy also carries a stateless call-counting trigger and is inspected again after the whole manager run: a later strategy must not reach back into a finished one."
 CHECKS["C04"]["text"] += " Wallets may be sparse (no entry for a token never held)."
+
+# ---- session 3: what was added to the explored domain of each check (appended to the level text)
+ADDENDA = {
+ "C02": " Also: rows of account_status_df (blank cell = absent column); a history that simply ends after bar k must reproduce bars 0..k (catches rows rewritten by later operations); intactness of the inputs through the BacktestManager entry point.",
+ "C05": " Records are observed at the Actuator's own action list (market callbacks untouched); market objects that served another broker before are part of the domain.",
+ "C06": " Argument types as callers have them (numpy integer ticks, UnitDecimal prices) and the market's own tick/price wrappers for both quote orientations are included.",
+ "C07": " Also numpy integer ticks, a companion pool of the same broker operated in the same bar, partial removals that collect nothing on the way, and requests for more liquidity than held.",
+ "C09": " Bars merged from several minute rows by the package's own resampling are mirrored too.",
+ "C10": " Also brokers that allow negative balances (exact debits), amounts a hair off the balance, whole positions rounded to 18 decimals, markets told about a subset of the tokens, the max-repay view.",
+ "C12": " Also portfolios with an exact decimal health factor (0.95, 1 and neighbours); the close factor is claimed as an upper bound, as stated.",
+ "C13": " Also markets told about a subset of the tokens and quiet bars (pool rows repeat, one price moves).",
+ "C14": " Also: LP amounts of the reference from closed forms (not the market's view), reads of position views, ETH-flat paths with a moving pool price, vaults opened by target ratio, the reported collateral ratio / liquidation price, pool market quoted in WETH or oSQTH.",
+ "C15": " Also books of expensive options whose neighbouring levels share one +-0.1% limit window, and the public cost estimate of market orders.",
+ "C16": " A position sold out and bought again before expiry is followed through the buy / sell records.",
+ "C17": " Also GLP tokens registered at construction, later, or twice; GM pools configured with their own fee factors.",
+ "C18": " Also triggers registered by the action of another trigger (appended, or by assigning a new list).",
+ "C19": " Also configured markets that already hold positions when handed to the manager.",
+ "C20": " Also benchmark series with an index of their own (RangeIndex, shifted / offset time stamps) and alpha / beta of performance_metrics.",
+ "C03": " Option limit prices a few 0.01% off a level (token and usd) and whole Aave positions rounded to 18 decimals are part of the argument classes.",
+ "C04": " Whole Aave positions rounded to 18 decimals (up / down) as repay / withdraw amounts are part of the argument classes.",
+}
+for _pid, _t in ADDENDA.items():
+    CHECKS[_pid]["text"] += _t
